@@ -5,12 +5,21 @@
 //! One case per line:
 //!   hist <c0> <now0> <driver_timeout_ms> <inter_service_timeout_ms> | <op> ; <op> ; ...
 //! ops:
-//!   ap|ax|as <chan> <stream>        add_publication / add_exclusive_publication / add_subscription
+//!   ap|ax|as <chan> <stream> [len]  add_publication / add_exclusive_publication / add_subscription; len (optional, >= 41): the channel
+//!                                   string is padded to exactly len bytes ("aeron:udp?alias=aaa..|endpoint=localhost:<port>"), default 34 bytes
+//!   cp|cx <id>                      the user calls the public close() of the Publication / ExclusivePublication it holds
 //!   ac <type> <keylen> <lablen>     add_counter
 //!   ad <variant> <reg> <chan>       0 add_destination 1 remove_destination 2 add_rcv_destination 3 remove_rcv_destination
 //!   fp|fs|fc|fd <id>                find_publication / find_subscription / find_counter / find_destination_response
-//!   dp|ds|dc <id>                   the user drops its handle
-//!   pp|ps|pc <id>                   peek at the user's handle: [h; closed; images; d1; d2; d3]
+//!   fx <id>                         find_exclusive_publication (pub(crate) in the crate: through the hook
+//!                                   ClientConductor::find_exclusive_publication_for_verif, hooks/cond-find-exclusive.diff; the driver
+//!                                   does not generate fx / dx / px when the repository lacks the hook)
+//!   dp|dx|ds|dc <id>                the user drops its handle
+//!   pp|px|ps|pc <id>                peek at the user's handle: [h; closed; images; d1; d2; d3]
+//!   cs <n>                          what the user's callbacks do from now on: 0 only record their arguments; otherwise every callback
+//!                                   (error handler, on_new_*, image and counter handlers, close handler) calls the client the way
+//!                                   `Aeron` does - lock the conductor's mutex, then 1 add_publication, 2 find_publication,
+//!                                   3 release_publication
 //!   cl                              Agent::on_close
 //!   tk <d>                          advance the clock
 //!   hb <t>                          the driver writes its heartbeat (consumer heartbeat of the ring)
@@ -23,7 +32,7 @@
 //!   wo                              the driver sends a message larger than the copy receiver's scratch buffer, then do_work
 //!   we <event>                      the driver transmits one event, then do_work:
 //!        pr corr orig stream session limit chstat | xr id stream session limit chstat | sr corr chstat | os corr
-//!        er corr code | ai corr session subpos subreg | ui corr subreg | cr corr cid | uc corr cid | ct client_id
+//!        er corr code (code 4 = channel endpoint error: corr is a channel status indicator id) | ai corr session subpos subreg | ui corr subreg | cr corr cid | uc corr cid | ct client_id
 //! Observation: `[(result, [callbacks], [commands]); ...]`, one element per op, in the syntax of Model/Conductor.v.
 //! An op that does not come back within the watchdog time is reported as `(Hang, [], [])` and ends the case
 //! (its thread stays parked on the mutex it dead-locked on); a panicking op is `(Panic, ..)` and ends the case.
@@ -51,6 +60,7 @@ use aeron_rs::concurrent::logbuffer::log_buffer_descriptor as lbd;
 use aeron_rs::concurrent::ring_buffer::{self, ManyToOneRingBuffer};
 use aeron_rs::counter::Counter;
 use aeron_rs::driver_proxy::DriverProxy;
+use aeron_rs::exclusive_publication::ExclusivePublication;
 use aeron_rs::image::Image;
 use aeron_rs::publication::Publication;
 use aeron_rs::subscription::Subscription;
@@ -59,6 +69,38 @@ use vcommon::client::{test_clock, CLOCK_MS};
 
 thread_local! {
     static LOG: RefCell<Vec<String>> = RefCell::new(Vec::new());
+    /// what the user's callbacks do (op `cs`), and the conductor they call
+    static SCRIPT: std::cell::Cell<i64> = std::cell::Cell::new(0);
+    static COND: RefCell<Option<Arc<Mutex<ClientConductor>>>> = RefCell::new(None);
+}
+
+/// set by a callback just before it locks a conductor mutex that `try_lock` says is taken (by its own thread: the harness drives
+/// one thread per case): lets the watchdog report the dead-lock after a short grace period instead of the full time-out
+static DEADLOCK_PENDING: std::sync::atomic::AtomicBool = std::sync::atomic::AtomicBool::new(false);
+
+/// A user callback that calls the client, exactly as `Aeron::add_publication` / `find_publication` or a handle's release do:
+/// `conductor.lock().expect(..)` first, then the `&mut ClientConductor` method.
+fn reenter() {
+    let n = SCRIPT.with(|s| s.get());
+    if n == 0 {
+        return;
+    }
+    let c = match COND.with(|c| c.borrow().clone()) {
+        Some(c) => c,
+        None => return,
+    };
+    if c.try_lock().is_err() {
+        DEADLOCK_PENDING.store(true, Ordering::SeqCst);
+    }
+    let mut g = c.lock().expect("Mutex poisoned");
+    // only reached if the lock were re-entrant
+    let r = match n {
+        1 => g.add_publication(channel(0), 1).map(|_| ()),
+        2 => g.find_publication(1).map(|_| ()),
+        _ => g.release_publication(1),
+    };
+    drop(g);
+    LOG.with(|l| l.borrow_mut().push(format!("CbReentered {} {}", n, if r.is_ok() { 1 } else { 0 })));
 }
 
 fn z(v: i64) -> String {
@@ -71,6 +113,7 @@ fn z(v: i64) -> String {
 
 fn log(s: String) {
     LOG.with(|l| l.borrow_mut().push(s));
+    reenter();
 }
 
 const PORT_BASE: i64 = 20000;
@@ -79,10 +122,24 @@ fn channel(chan: i64) -> CString {
     CString::new(format!("aeron:udp?endpoint=localhost:{}", PORT_BASE + chan)).unwrap()
 }
 
+/// the channel for number `chan` as a string of exactly `len` bytes (len = 0: the short default form, 34 bytes)
+fn channel_len(chan: i64, len: i64) -> CString {
+    let short = format!("aeron:udp?endpoint=localhost:{}", PORT_BASE + chan);
+    if len == 0 {
+        return CString::new(short).unwrap();
+    }
+    let fixed = "aeron:udp?alias=|".len() as i64 + "endpoint=localhost:".len() as i64 + 5;
+    assert!(len >= fixed, "channel length {} too small", len);
+    let s = format!("aeron:udp?alias={}|endpoint=localhost:{}", "a".repeat((len - fixed) as usize), PORT_BASE + chan);
+    assert_eq!(s.len() as i64, len);
+    CString::new(s).unwrap()
+}
+
 fn chan_of(bytes: &[u8]) -> i64 {
     let s = String::from_utf8_lossy(bytes);
+    let long = s.starts_with("aeron:udp?alias=") && s.contains("|endpoint=localhost:") && s["aeron:udp?alias=".len()..].split('|').next().map_or(false, |a| a.bytes().all(|c| c == b'a'));
     match s.rsplit(':').next().and_then(|p| p.parse::<i64>().ok()) {
-        Some(p) if s.starts_with("aeron:udp?endpoint=localhost:") => p - PORT_BASE,
+        Some(p) if s.starts_with("aeron:udp?endpoint=localhost:") || long => p - PORT_BASE,
         _ => -1,
     }
 }
@@ -97,6 +154,10 @@ fn on_new_sub(c: CString, stream: i32, corr: i64) {
     log(format!("CbNewSub {} {} {}", z(corr), z(stream as i64), z(chan_of(c.as_bytes()))));
 }
 fn on_error(e: AeronError) {
+    if let AeronError::ChannelEndpointException(id, _) = &e {
+        log(format!("CbErr (EChannelEndpoint {})", z(*id)));
+        return;
+    }
     let n = match e {
         AeronError::Generic(GenericError::TimeoutBetweenServiceCallsOverTimeout(_)) => "EServiceTimeout",
         AeronError::DriverTimeout(DriverInteractionError::WasInactive(_)) => "EWasInactive",
@@ -153,6 +214,7 @@ fn err_name(e: &AeronError) -> String {
 
 enum Handle {
     Pub(Arc<Mutex<Publication>>),
+    XPub(Arc<Mutex<ExclusivePublication>>),
     Sub(Arc<Mutex<Subscription>>),
     Ctr(Arc<Counter>),
 }
@@ -209,6 +271,8 @@ impl Client {
             false,
         );
         let cm = AtomicBuffer::from_aligned(&counter_metadata);
+        SCRIPT.with(|s| s.set(0));
+        COND.with(|c| *c.borrow_mut() = Some(conductor.clone()));
         Self {
             conductor,
             ring,
@@ -359,10 +423,10 @@ impl Client {
             Err(e) => format!("Err {}", err_name(&e)),
         };
         match w[0] {
-            "ap" => res_id(self.conductor.lock().unwrap().add_publication(channel(a[0]), a[1] as i32)),
-            "ax" => res_id(self.conductor.lock().unwrap().add_exclusive_publication(channel(a[0]), a[1] as i32)),
+            "ap" => res_id(self.conductor.lock().unwrap().add_publication(channel_len(a[0], *a.get(2).unwrap_or(&0)), a[1] as i32)),
+            "ax" => res_id(self.conductor.lock().unwrap().add_exclusive_publication(channel_len(a[0], *a.get(2).unwrap_or(&0)), a[1] as i32)),
             "as" => res_id(self.conductor.lock().unwrap().add_subscription(
-                channel(a[0]),
+                channel_len(a[0], *a.get(2).unwrap_or(&0)),
                 a[1] as i32,
                 Box::new(on_avail_img),
                 Box::new(on_unavail_img),
@@ -394,6 +458,22 @@ impl Client {
                     Err(e) => format!("Err {}", err_name(&e)),
                 }
             },
+            #[cfg(verif_find_excl)]
+            "fx" => {
+                let r = self.conductor.lock().unwrap().find_exclusive_publication_for_verif(a[0]);
+                match r {
+                    Ok(p) => {
+                        let h = self.take_handle::<()>(1, a[0], Handle::XPub(p), |x, y| match (x, y) {
+                            (Handle::XPub(x), Handle::XPub(y)) => Arc::ptr_eq(x, y),
+                            _ => false,
+                        });
+                        ok_list(&[h])
+                    },
+                    Err(e) => format!("Err {}", err_name(&e)),
+                }
+            },
+            #[cfg(not(verif_find_excl))]
+            "fx" => panic!("unknown case kind: fx needs the hook find_exclusive_publication_for_verif (hooks/cond-find-exclusive.diff)"),
             "fs" => {
                 let r = self.conductor.lock().unwrap().find_subscription(a[0]);
                 match r {
@@ -427,9 +507,10 @@ impl Client {
                     Err(e) => format!("Err {}", err_name(&e)),
                 }
             },
-            "dp" | "ds" | "dc" => {
+            "dp" | "dx" | "ds" | "dc" => {
                 let k = match w[0] {
                     "dp" => 0,
+                    "dx" => 1,
                     "ds" => 2,
                     _ => 3,
                 };
@@ -450,9 +531,24 @@ impl Client {
                     None => ok_list(&[0]),
                 }
             },
-            "pp" | "ps" | "pc" => {
+            "cp" | "cx" => {
+                let k = if w[0] == "cp" { 0 } else { 1 };
+                match self.held.get(&(k, a[0])).and_then(|l| l.last()) {
+                    Some((_h, Handle::Pub(p))) => {
+                        p.lock().unwrap().close();
+                        ok_list(&[1])
+                    },
+                    Some((_h, Handle::XPub(p))) => {
+                        p.lock().unwrap().close();
+                        ok_list(&[1])
+                    },
+                    _ => ok_list(&[0]),
+                }
+            },
+            "pp" | "px" | "ps" | "pc" => {
                 let k = match w[0] {
                     "pp" => 0,
+                    "px" => 1,
                     "ps" => 2,
                     _ => 3,
                 };
@@ -461,6 +557,10 @@ impl Client {
                     Some((h, Handle::Pub(p))) => {
                         let p = p.lock().unwrap();
                         ok_list(&[*h, p.is_closed() as i64, 0, p.session_id() as i64, p.channel_status_id() as i64, p.original_registration_id()])
+                    },
+                    Some((h, Handle::XPub(p))) => {
+                        let p = p.lock().unwrap();
+                        ok_list(&[*h, p.is_closed() as i64, 0, p.session_id() as i64, p.channel_status_id() as i64, 0])
                     },
                     Some((h, Handle::Sub(p))) => {
                         let p = p.lock().unwrap();
@@ -475,6 +575,10 @@ impl Client {
             },
             "tk" => {
                 CLOCK_MS.fetch_add(a[0] as u64, Ordering::SeqCst);
+                ok_list(&[])
+            },
+            "cs" => {
+                SCRIPT.with(|s| s.set(a[0]));
                 ok_list(&[])
             },
             "hb" => {
@@ -605,6 +709,7 @@ fn canon(cbs: Vec<String>) -> Vec<String> {
 }
 
 const WATCHDOG: Duration = Duration::from_millis(3000);
+const DEADLOCK_GRACE: Duration = Duration::from_millis(400);
 
 fn run_case(line: &str, log_file: &str) -> String {
     let (head, body) = line.split_once('|').unwrap_or_else(|| panic!("unknown case kind: {}", line));
@@ -650,8 +755,22 @@ fn run_case(line: &str, log_file: &str) -> String {
         .expect("spawn");
     let mut outs: Vec<String> = Vec::new();
     let mut hung = false;
+    DEADLOCK_PENDING.store(false, Ordering::SeqCst);
     while outs.len() < n {
-        match rx.recv_timeout(WATCHDOG) {
+        // wait for the operation in small slices: a callback that announced its dead-lock is given a short grace period only
+        let t0 = std::time::Instant::now();
+        let got = loop {
+            match rx.recv_timeout(Duration::from_millis(20)) {
+                Err(mpsc::RecvTimeoutError::Timeout) => {
+                    let e = t0.elapsed();
+                    if e >= WATCHDOG || (DEADLOCK_PENDING.load(Ordering::SeqCst) && e >= DEADLOCK_GRACE) {
+                        break Err(mpsc::RecvTimeoutError::Timeout);
+                    }
+                },
+                other => break other,
+            }
+        };
+        match got {
             Ok(s) => {
                 let stop = s.starts_with("(Panic");
                 outs.push(s);
